@@ -22,40 +22,19 @@ pub fn profile_hash(prof: &Profile) -> u64 {
     h
 }
 
-/// Judge one (game, profile) pair. Returns false if a violation was recorded.
-pub fn judge(ctx: &mut Ctx, idx: u64, desc: &str, tree: &HNode, flat: &Flat, game: &bridge::G, prof: &Profile, kind: &str) -> bool {
+/// Compare get_info with O1 on one (game, profile) pair. Err((kind, message)) on disagreement;
+/// Ok(false) if the oracle could not decide (recorded as inconclusive).
+pub fn compare(ctx: &mut Ctx, tree: &HNode, flat: &Flat, game: &bridge::G, prof: &Profile) -> Result<bool, (String, String)> {
     let scale = flat.max_abs_payoff().max(1e-300);
     let tol = 1e-9;
-    let strat = match bridge::inject(game, flat, prof) {
-        Ok(s) => s,
-        Err(e) => {
-            ctx.violation(
-                idx,
-                "C01:from_named:rejects-valid-profile",
-                &format!("from_named rejected a valid profile: {:?}", e),
-                json!({"game": tree.to_json(), "profile": prof, "desc": desc}),
-            );
-            return false;
-        }
-    };
-    let info = match catch(|| strat.get_info()) {
-        Ok(i) => i,
-        Err(msg) => {
-            ctx.violation(
-                idx,
-                "C01:get_info:panic",
-                &format!("get_info panicked: {}", msg),
-                json!({"game": tree.to_json(), "profile": prof, "desc": desc}),
-            );
-            return false;
-        }
-    };
+    let strat = bridge::inject(game, flat, prof).map_err(|e| ("from_named:rejects-valid-profile".to_string(), format!("from_named rejected a valid profile: {:?}", e)))?;
+    let info = catch(|| strat.get_info()).map_err(|msg| ("get_info:panic".to_string(), format!("get_info panicked: {}", msg)))?;
     let want = match oracle::try_evaluate(flat, prof) {
         Some(w) => w,
         None => {
             ctx.sample(50, || json!({"oracle_cyclic": tree.brief(1000)}));
             ctx.inconclusive("oracle-cyclic-infosets");
-            return true;
+            return Ok(false);
         }
     };
     // cross-check the oracle with exhaustive enumeration where feasible
@@ -68,7 +47,7 @@ pub fn judge(ctx: &mut Ctx, idx: u64, desc: &str, tree: &HNode, flat: &Flat, gam
                 // the oracle disagrees with itself: harness error, not a verdict on cfr
                 ctx.inconclusive("oracle-self-disagreement");
                 ctx.sample(50, || json!({"oracle_self_disagreement": {"game": tree.to_json(), "profile": prof, "exhaustive": ex, "memoised": memo, "player": me + 1}}));
-                return true;
+                return Ok(false);
             }
         }
     }
@@ -94,17 +73,36 @@ pub fn judge(ctx: &mut Ctx, idx: u64, desc: &str, tree: &HNode, flat: &Flat, gam
     }
     ctx.max("max_abs_deviation_over_scale", ((got_u1 - want.util).abs() / scale).max((got_r[0] - want.regret[0]).abs() / scale).max((got_r[1] - want.regret[1]).abs() / scale));
     if let Some((what, got, exp)) = bad.first() {
-        ctx.violation(
-            idx,
-            &format!("C01:get_info:{}", what),
-            &format!("{}: library {} vs oracle {} ({} profile on {})", what, got, exp, kind, desc),
-            json!({"game": tree.to_json(), "profile": prof, "desc": desc, "all": bad.iter().map(|(w,g,e)| json!([w,g,e])).collect::<Vec<_>>()}),
-        );
-        return false;
+        return Err((format!("get_info:{}", what), format!("{}: library {} vs oracle {}; all: {:?}", what, got, exp, bad)));
     }
-    let nontrivial = flat.num_decision_infosets() >= 1;
-    ctx.ok(mix(tree.structural_hash() ^ profile_hash(prof)), nontrivial);
-    true
+    Ok(true)
+}
+
+/// Judge one (game, profile) pair. Returns false if a violation was recorded.
+pub fn judge(ctx: &mut Ctx, idx: u64, desc: &str, tree: &HNode, flat: &Flat, game: &bridge::G, prof: &Profile, kind: &str) -> bool {
+    match compare(ctx, tree, flat, game, prof) {
+        Err((sig, msg)) => {
+            ctx.violation(idx, &format!("C01:{}", sig), &format!("{} ({} profile on {})", msg, kind, desc), json!({"game": tree.to_json(), "profile": prof, "desc": desc}));
+            false
+        }
+        Ok(true) => {
+            let nontrivial = flat.num_decision_infosets() >= 1;
+            ctx.ok(mix(tree.structural_hash() ^ profile_hash(prof)), nontrivial);
+            true
+        }
+        Ok(false) => true,
+    }
+}
+
+/// Same comparison on behalf of C11 (accepted trees must evaluate correctly); counts nothing on success
+pub fn judge_quiet(ctx: &mut Ctx, idx: u64, desc: &str, tree: &HNode, flat: &Flat, game: &bridge::G, prof: &Profile) -> bool {
+    match compare(ctx, tree, flat, game, prof) {
+        Err((sig, msg)) => {
+            ctx.violation(idx, &format!("C11:accepted-tree-misevaluated:{}", sig), &format!("{} ({})", msg, desc), json!({"game": tree.to_json(), "profile": prof, "desc": desc}));
+            false
+        }
+        Ok(_) => true,
+    }
 }
 
 fn one_game(ctx: &mut Ctx, idx: u64, rng: &mut Rng, desc: &str, tree: &HNode, nprof: usize) {
